@@ -3,7 +3,8 @@ SPEC = {
     "level": "model_checking",
     "parts": [part("c19_outputs", "plain", ["c19_outputs.cpp"])],
     "rule": "trajectory part: all 128 subsets of 7 output flags x colvarsTrajFrequency {1,2,3} x every run segmentation "
-            "(single run, or a second run repeating step K for every K) x all value words of length 4 (quick: covering "
+            "(single run, or a second run repeating step K for every K, in the same process or as a restart from the "
+            "saved state) x a further variable defined before step A for every A x all value words of length 4 (quick: covering "
             "selection; thorough: full product, length 5) over 3 values; analysis part: ALL value words of length 7 "
             "over 3 (thorough 4) values x scalar and 3-vector variables, each run with 4 running-average and 16 "
             "correlation-function parameter tuples; states = distinct output file contents, transitions = Colvars steps; "
